@@ -3,6 +3,7 @@
 package models
 
 import (
+	"reflect"
 	"sort"
 
 	"github.com/prometheus/client_golang/prometheus"
@@ -27,12 +28,24 @@ func VerifSessionGauge() float64 {
 // only called while no handler is running (L1) or while the cooperative
 // scheduler has every goroutine parked (L1c).
 
+// (read through reflection so that the set of reusable ids may be a map or a slice: the representation is the
+// generator's own business)
 func (g *SequentialIDGenerator) VerifState() (cur uint32, free []uint32) {
-	for id := range g.reusableIDs {
-		free = append(free, id)
+	v := reflect.ValueOf(g).Elem()
+	cur = uint32(v.FieldByName("currentID").Uint())
+	f := v.FieldByName("reusableIDs")
+	switch f.Kind() {
+	case reflect.Map:
+		for _, k := range f.MapKeys() {
+			free = append(free, uint32(k.Uint()))
+		}
+	case reflect.Slice, reflect.Array:
+		for i := 0; i < f.Len(); i++ {
+			free = append(free, uint32(f.Index(i).Uint()))
+		}
 	}
 	sort.Slice(free, func(i, j int) bool { return free[i] < free[j] })
-	return g.currentID, free
+	return cur, free
 }
 
 func (s *SessionStore) VerifIDs() (uint32, []uint32) { return s.ids.VerifState() }
